@@ -440,11 +440,25 @@ fn families(quick: bool) -> Vec<LmFamily> {
         n: 2,
         m: 2,
         doms: if quick { vec![Dom::NonNeg, Dom::Free] } else { vec![Dom::NonNeg, Dom::Free, Dom::Real(-2.0, 3.0)] },
-        coefs: if quick { vec![-1.0, 0.0, 1.0] } else { vec![-1.0, 0.0, 1.0, 2.0] },
+        coefs: vec![-1.0, 0.0, 1.0, 2.0],
         rhss: if quick { vec![0.0, 2.0] } else { vec![-1.0, 0.0, 2.0] },
         rels: vec![Rel::Le, Rel::Ge, Rel::Eq],
         objs: vec![-1.0, 0.0, 1.0],
         senses: vec![Sense::Min, Sense::Max],
+        offsets: vec![0.0],
+        named: false,
+    });
+    // three rows compete in the ratio test (ties with a smaller ratio in between)
+    v.push(LmFamily {
+        name: "T5-ratio-test-n2m3",
+        n: 2,
+        m: 3,
+        doms: vec![Dom::NonNeg],
+        coefs: vec![0.0, 1.0, 2.0],
+        rhss: vec![0.0, 2.0, 4.0],
+        rels: vec![Rel::Le],
+        objs: vec![1.0, 2.0],
+        senses: vec![Sense::Max],
         offsets: vec![0.0],
         named: false,
     });
